@@ -246,3 +246,114 @@ static void run_c04(void)
     wl_rt_stop(&rt);
 }
 SIM_WORKLOAD("C04", "mutex-mix", run_c04, 10)
+
+/* ---- scenario "deep-nesting": the owner of a recursive mutex locks it D times (the mutex counts
+ * the levels; nothing says how many there may be) and unlocks it D times; until the last unlock
+ * nobody else gets it (a foreign trylock fails, a foreign lock stays blocked), afterwards it is
+ * free.  D is mostly small; now and then it sits on 2^8 / 2^16 or just around it. ---- */
+static struct {
+    ABT_mutex m;
+    ABT_mutex_memory mem;
+    long depth, target;
+    volatile int all_taken, other_in, other_done;
+    wl_actor A[2];
+} DN;
+static void dn_owner(wl_actor *a)
+{
+    for (long i = 0; i < DN.target; i++) {
+        if (i & 1)
+            ABT_OK(ABT_mutex_lock(DN.m));
+        else
+            SIM_CHECK(ABT_mutex_trylock(DN.m) == ABT_SUCCESS, "mutex:recursion", "level %ld: trylock by the owner of a recursive mutex (or of a free one) failed", i);
+        DN.depth++;
+        if ((i & 255) == 0)
+            sim_progress();
+    }
+    DN.all_taken = 1;
+    sim_progress();
+    for (int i = 0; i < (a->args[0] & 7); i++)
+        wl_actor_pause(a, 1);
+    while (DN.depth > 0) {
+        SIM_CHECK(!DN.other_in, "mutex:exclusion", "another caller holds the recursive mutex although its owner is still %ld of %ld levels deep", DN.depth, DN.target);
+        DN.depth--; /* (before the call: the other caller may get in as soon as the last unlock takes effect) */
+        ABT_OK(ABT_mutex_unlock(DN.m));
+        if ((DN.depth & 255) == 0)
+            sim_progress();
+    }
+    sim_progress();
+}
+static void dn_other(wl_actor *a)
+{
+    while (!DN.all_taken)
+        wl_actor_pause(a, 1);
+    if (a->args[0] & 1) {
+        /* polls with trylock */
+        for (;;) {
+            int rc = ABT_mutex_trylock(DN.m);
+            if (rc == ABT_SUCCESS)
+                break;
+            SIM_CHECK(rc == ABT_ERR_MUTEX_LOCKED, "mutex:trylock", "ABT_mutex_trylock returned %d", rc);
+            wl_actor_pause(a, 1);
+        }
+    } else
+        ABT_OK(ABT_mutex_lock(DN.m));
+    SIM_CHECK(DN.depth == 0, "mutex:exclusion", "another caller got the recursive mutex while its owner is %ld of %ld levels deep", DN.depth, DN.target);
+    DN.other_in = 1;
+    sim_progress();
+    wl_actor_pause(a, 1);
+    DN.other_in = 0;
+    ABT_OK(ABT_mutex_unlock(DN.m));
+    DN.other_done = 1;
+    sim_progress();
+}
+static void dn_diag(char *buf, int sz)
+{
+    int k = snprintf(buf, (size_t)sz, "deep-nesting: depth=%ld of %ld other_in=%d ", DN.depth, DN.target, DN.other_in);
+    wl_actors_diag(DN.A, 2, buf + k, sz - k);
+}
+static void run_c04_deep(void)
+{
+    wl_rt rt;
+    memset(&DN, 0, sizeof DN);
+    wl_rt_start(&rt, WL_RT_NO_TOPO2);
+    sim_set_diag_cb(dn_diag);
+    int is_static = plan_bool();
+    if (is_static) {
+        ABT_mutex_memory rinit = ABT_RECURSIVE_MUTEX_INITIALIZER;
+        DN.mem = rinit;
+        DN.m = ABT_MUTEX_MEMORY_GET_HANDLE(&DN.mem);
+    } else {
+        ABT_mutex_attr attr;
+        ABT_OK(ABT_mutex_attr_create(&attr));
+        ABT_OK(ABT_mutex_attr_set_recursive(attr, ABT_TRUE));
+        ABT_OK(ABT_mutex_create_with_attr(attr, &DN.m));
+        ABT_OK(ABT_mutex_attr_free(&attr));
+    }
+    static const long edges[] = { 255, 256, 257, 65535, 65536, 65537, 70000 };
+    /* (a deep run costs a thousand ordinary ones: rare, rarer still where every plain access is a
+     * scheduling point) */
+    int deep = plan_n(sim_tier() ? 150 : !strcmp(sim_variant(), "VP") ? 6000 : 700) == 0;
+    DN.target = deep ? edges[plan_n(7)] : plan_range(1, 40);
+    sim_note("C04 deep-nesting %s D=%ld: ", is_static ? "static" : "dynamic", DN.target);
+    for (int i = 0; i < 2; i++) {
+        wl_actor *a = &DN.A[i];
+        a->id = i;
+        a->kind = plan_n(3) == 0 ? AK_EXT : AK_ULT;
+        a->pool = (int)plan_n((uint32_t)rt.npools);
+        a->body = i == 0 ? dn_owner : dn_other;
+        a->args[0] = (int)plan_n(8);
+        sim_note("%s@%d ", wl_actor_kind_names[a->kind], a->pool);
+    }
+    wl_actors_spawn(&rt, DN.A, 2);
+    wl_actors_join(&rt, DN.A, 2);
+    SIM_CHECK(DN.other_done, "mutex:model", "the second caller did not finish");
+    SIM_CHECK(ABT_mutex_trylock(DN.m) == ABT_SUCCESS, "mutex:trylock", "the mutex is not free after everybody unlocked");
+    ABT_OK(ABT_mutex_unlock(DN.m));
+    if (DN.target >= 65536)
+        sim_count("c04.runs_with_2^16_levels", 1);
+    sim_count("c04.nesting_levels_of_one_owner", (uint64_t)DN.target);
+    if (!is_static)
+        ABT_OK(ABT_mutex_free(&DN.m));
+    wl_rt_stop(&rt);
+}
+SIM_WORKLOAD("C04", "deep-nesting", run_c04_deep, 1)
